@@ -34,7 +34,7 @@ POOL = [
     "<{|x| yield x if x < 3; recur(x + 1)}>.new(0)", "[1, 2]._iter",
     "Int", "Arr", "Str", "Obj", "BaseObj", "Iter", "Either", "Kernel", "Err", "Comparable",
     'Err.new("m")', "ValueErr", "_", "Either.newVal(1)", 'Either.newErr(Err.new("e"))', "1.try",
-    "Int.bear", "Int.bear({}).new(5)", "Arr.bear({}).new(1, 2)", "Str.bear", "{call: {|x| x}}", "{_missing: {|s, n| n}}",
+    "Int.bear", "Int.bear({}).new(5)", "Int.bear({}).new(0)", "(Int.bear({}).new(5) - Int.bear({}).new(5))", "Float.bear({}).new(0.0)", 'Str.bear({}).new("")', "Arr.bear({}).new(1, 2)", "Str.bear", "{call: {|x| x}}", "{_missing: {|s, n| n}}",
 ]
 SMALL = ["nil", "0", "-1", "2", '"a"', "[1, 2, 3]", "{a: 1}", "(1:3)", "{|x| x}", "Int", "1.5", "%{1: 2}"]
 THIRD = ["nil", "1", "-1", '"b"', "[]", "{|x, y| x}", "{}", "9223372036854775807"]
